@@ -39,11 +39,21 @@ func (node *tagBlockNode) Execute(ctx *ExecutionContext, writer TemplateWriter) 
 	}
 
 	blockWrapper := blockWrappers[lenBlockWrappers-1]
+
+	// "block" refers to this block while its body is rendered; afterwards it
+	// refers again to the enclosing block (if any), so that block.Super still
+	// works behind a nested block.
+	outerBlock, hasOuterBlock := ctx.Private["block"]
 	ctx.Private["block"] = tagBlockInformation{
 		ctx:      ctx,
 		wrappers: blockWrappers[0 : lenBlockWrappers-1],
 	}
 	err := blockWrapper.Execute(ctx, writer)
+	if hasOuterBlock {
+		ctx.Private["block"] = outerBlock
+	} else {
+		delete(ctx.Private, "block")
+	}
 	if err != nil {
 		return err
 	}
